@@ -104,6 +104,15 @@ def build_raid_harness(tag='raid', extra=()):
         raise BuildError('harness link failed:\n' + r.stdout[-3000:])
     return exe
 
+def build_shim():
+    out = os.path.join(scratch(), 'shim.so')
+    if os.path.exists(out):
+        return out
+    r = run(['gcc', '-O1', '-g', '-shared', '-fPIC', '-w', '-o', out, os.path.join(VERIF, 'harness', 'shim.c'), '-ldl', '-lpthread'])
+    if r.returncode != 0:
+        raise BuildError('shim compile failed:\n' + r.stdout[-2000:])
+    return out
+
 # --------------------------------------------------------------------------------------
 # Lean side
 
